@@ -28,6 +28,9 @@ def examine(ctx):
                 ctx.evaluations += 1
                 try:
                     s = sol.ComplexSolution(circuit, w=w, peak_values=peak)
+                    # signs are judged on the power scale of the whole circuit (the power of an element that carries only rounding noise,
+                    # e.g. an inductor at DC behind a uA source, has no sign)
+                    pscale = max([abs(complex(s.get_power(i))) for i in ids] + [1e-12])
                     for i in ids:
                         v, c, p = complex(s.get_voltage(i)), complex(s.get_current(i)), complex(s.get_power(i))
                         want = v * c.conjugate() * (0.5 if peak else 1.0)
@@ -36,7 +39,7 @@ def examine(ctx):
                                           dict(rep, w=w, peak=peak))
                             break
                         kind = next(c_['kind'] for c_ in case['components'] if c_['id'] == i)
-                        sc = max(abs(p), 1e-12)
+                        sc = pscale
                         if kind == 'inductance' and (abs(p.real) > 1e-9 * sc or p.imag < -1e-9 * sc):
                             ctx.violation('C05:inductor-power-sign', f'{i!r}: {p}', dict(rep, w=w))
                         if kind == 'capacitor' and (abs(p.real) > 1e-9 * sc or p.imag > 1e-9 * sc):
